@@ -4,6 +4,7 @@
     [trailing_values] of [Parser::parse]) and about the iteration that sets it. *)
 From ClapModel Require Import Base.Bytes Base.Machine Base.Utf8 Lex.OsStrExtModel.
 From ClapModel Require Import Parse.Cmd Parse.Build Parse.Valid Parse.Matcher Parse.Errors Parse.Validator Parse.Parser.
+From ClapModel Require ParseProofs.VpKinds.
 From Coq Require Import ZArith Lia.
 From RecordUpdate Require Import RecordSet.
 Import RecordSetNotations.
@@ -473,13 +474,7 @@ Definition display_action (a : arg) : bool :=
   match a_get_action a with AHelp | AHelpShort | AHelpLong | AVersion => true | _ => false end.
 
 Lemma vp_parse_kind v s k : vp_parse v s = Some k -> is_display k = false.
-Proof.
-  unfold vp_parse. destruct v;
-    repeat match goal with
-           | |- context [if ?x then _ else _] => destruct x
-           | |- context [match parse_i64 ?x with _ => _ end] => destruct (parse_i64 x)
-           end; intros E; try discriminate; injection E as <-; reflexivity.
-Qed.
+Proof. apply (ClapModel.ParseProofs.VpKinds.vp_parse_kind_ind (fun k => is_display k = false)); reflexivity. Qed.
 
 Lemma verify_num_args_kind a raw st e st' :
   verify_num_args c a raw st = RErr e st' -> is_display (e_kind e) = false.
